@@ -47,7 +47,12 @@ def judge(acc, root, m, cc, enc, d, tag):
     acc.count("outcome:" + (r.kind if not r.kind.startswith("ESCAPE") else "ESCAPE"))
     acc.shape((root if tag == "cross" else oracle.rootclass(root), r.kind, oracle.path_shape(r.details.get("cpath") or r.details.get("path")) if isinstance(r.details, dict) else None))
     if r.kind.startswith("ESCAPE") or r.kind == "GUARD":
-        acc.violation({"clause": "undocumented-outcome", "exc": r.kind, "where": r.details.get("where"), "msg": msg_head(r.details.get("msg")), "root": oracle.rootclass(root)}, d(), f"strict decoding as {root} raised {r.kind} in {r.details.get('where')}: {r.details.get('msg')}", size=len(m))
+        fp = {"clause": "undocumented-outcome", "exc": r.kind, "where": r.details.get("where"), "msg": msg_head(r.details.get("msg")), "root": oracle.rootclass(root)}
+        if r.details.get("where") in ("encrypted", "process_response"):
+            ctx = oracle.enc_context(r.events, root, enc)
+            fp["requested"] = ctx["requested"]
+            fp["inconsistent"] = ctx["requested"] != ctx["response_sessions_encrypt"]
+        acc.violation(fp, d(), f"strict decoding as {root} raised {r.kind} in {r.details.get('where')}: {r.details.get('msg')}", size=len(m))
     elif r.kind not in oracle.DOCUMENTED:
         acc.violation({"clause": "undocumented-outcome", "exc": r.kind, "root": oracle.rootclass(root)}, d(), f"{r.kind}", size=len(m))
     if r.pulled is not None and r.pulled > len(m):
